@@ -1351,9 +1351,17 @@ fn judge(r: &Rd, out: &Out, s: &Snap, stored: usize, dirty: bool) -> Option<&'st
 }
 
 // ------------------------------------------------------------------ generator
-fn gen_case(rng: &mut Rng) -> CaseIn {
+fn gen_case(rng: &mut Rng, n: u64) -> CaseIn {
     let kinds = ["bytes", "bytes", "bytes", "bytesn", "bytesn", "zc", "zc", "pco", "pco", "lz4", "zstd", "ebytes", "epco"];
-    let kind = rng.pick(&kinds).to_string();
+    // the first cases of every run are directed: each raw layout once with more than one IO buffer of stored
+    // data (a non-power-of-two element size among them), each compressed codec once with several pages
+    let forced: Option<(&str, bool)> = match n {
+        0 => Some(("bytesn", true)), 1 => Some(("bytes", true)), 2 => Some(("zc", true)),
+        3 => Some(("pco", false)), 4 => Some(("lz4", false)), 5 => Some(("zstd", false)),
+        _ => None,
+    };
+    let mut kind = rng.pick(&kinds).to_string();
+    if let Some((k, _)) = forced { kind = k.to_string(); }
     let raw = matches!(kind.as_str(), "bytes" | "bytesn" | "zc");
     let eager = kind.starts_with('e');
     let comp = !raw && !eager || kind == "epco";
@@ -1361,15 +1369,17 @@ fn gen_case(rng: &mut Rng) -> CaseIn {
     let sz = if kind == "bytesn" { 5 } else { 8 };
     let pp = 16384 / sz;
     // size class
-    let cls = rng.below(100);
+    let mut cls = rng.below(100);
+    if let Some((_, big)) = forced { cls = if big { 93 } else { 70 }; }
     let n0 = if cls < 62 {
         rng.below(40) as usize
     } else if cls < 92 {
         let b = *rng.pick(&[pp, 4096, 2 * pp, 4096 + pp, 8192]);
         (b as i64 + rng.range(0, 12) as i64 - 6).max(0) as usize
     } else if cls < 96 && !comp {
-        // more than one IO buffer (524288 bytes) of stored data
-        524288 / sz + rng.range(1, 40) as usize
+        // more than one IO buffer (524288 bytes) of stored data, by more than a page: a scan that starts anywhere
+        // in the first page still crosses the buffer boundary
+        524288 / sz + 16384 / sz + rng.range(1, 40) as usize
     } else {
         rng.below(300) as usize
     };
@@ -1668,7 +1678,7 @@ pub fn run(args: &[String]) -> i32 {
     }
     let mut rng = Rng::new(a.seed);
     for n in 0..a.cases {
-        let c = gen_case(&mut rng);
+        let c = gen_case(&mut rng, n);
         READ_RNG.with(|r| *r.borrow_mut() = Some(Rng::new(rng.next())));
         let rep = dispatch(&c);
         print_report(&format!("{}-{}", a.seed, n), &rep);
